@@ -26,7 +26,7 @@ ASSUMPTIONS = [
     "predicates are pure functions of the offered NodeTraversalInfo",
     "reference walker (20 lines) encodes the statement: pruned nodes are offered to filter, their descendants are not visited",
 ]
-MUST_SEE = ["positional_predicates", "late_defined_subclass", "prune_not_filter_with_desc", "falsy_children", "shared_objects", "bottom_up_with_prune", "gather_calls", "deep_chain", "deep_3000_traversals", "abandoned_traversals", "reentrant_predicates"]
+MUST_SEE = ["falsy_callable_predicates", "positional_predicates", "late_defined_subclass", "prune_not_filter_with_desc", "falsy_children", "shared_objects", "bottom_up_with_prune", "gather_calls", "deep_chain", "deep_3000_traversals", "abandoned_traversals", "reentrant_predicates"]
 CONFIG = {
     "quick": {"shards": 16, "small_trees": 600, "exh_n": 4, "large_trees": 300, "watchdog_s": 300},
     "thorough": {"shards": 32, "small_trees": 400, "exh_n": 6, "large_trees": 250, "watchdog_s": 3000},
@@ -77,6 +77,19 @@ def ref_bfs(U, root_pos, pruned, cache):
         if not pruned(p):
             q.extend(kids_of(U, p, cache))
     return out
+
+
+class FalsyCallable:
+    """a predicate object: callable, and empty / falsy when asked for its truth value"""
+
+    def __init__(self, fn):
+        self.fn = fn
+
+    def __call__(self, info):
+        return self.fn(info)
+
+    def __len__(self):
+        return 0
 
 
 def deep_under_default_limit(ctx, U):
@@ -329,12 +342,17 @@ def run_shard(ctx):
             plog: list = []
 
             def f_filter(info, _fl=fl, _log=flog):
-                _log.append((id(info.node), id(info.parent), info.field.name, info.findex))
+                _log.append((id(info.node), id(info.parent), getattr(info.field, "name", None), info.findex))
                 return id(info.node) in _fl
 
             def f_prune(info, _pr=pr, _log=plog):
-                _log.append((id(info.node), id(info.parent), info.field.name, info.findex))
+                _log.append((id(info.node), id(info.parent), getattr(info.field, "name", None), info.findex))
                 return id(info.node) in _pr
+
+            if rng.random() < 0.25:
+                # predicates given as callable objects that are falsy in a boolean context (an empty selector)
+                f_filter, f_prune = FalsyCallable(f_filter), FalsyCallable(f_prune)
+                ctx.count("falsy_callable_predicates")
 
             pruned = lambda p, _pr=pr: id(obj[id(p)]) in _pr  # noqa: E731
             keep = lambda p, _fl=fl: id(obj[id(p)]) in _fl  # noqa: E731
